@@ -373,7 +373,7 @@ def limit_shapes(draw):
         tags.add('join:' + jk)
         li = draw(st.integers(0, i - 1))
         frm += f' {jk} {tabs[i][0]}.{tabs[i][1]} AS {als[i]} ON ({als[li]}.a = {als[i]}.a)'
-    oi = draw(st.integers(0, n - 1))
+    oi = draw(st.sampled_from([0] + list(range(n))))     # the first table's column more often: that is what gets pushed
     ocol = draw(st.sampled_from([c for c, t in model.SCHEMA[tabs[oi][1]] if t == 'int']))
     tcols = [f'{als[oi]}.{ocol} AS c0']
     for i in range(n):
@@ -432,7 +432,8 @@ def cases(draw):
         return c
     if draw(st.integers(0, 7)) == 0:
         c = draw(limit_shapes())
-        c['data'] = draw(model.table_data(DATA_TABLES))
+        # more rows than LIMIT asks for: a fetch that is cut short has to show in the result
+        c['data'] = draw(model.table_data(DATA_TABLES, max_rows=6, min_rows=2))
         c['catalog'] = draw(st.sampled_from(sorted(CATALOGS)))
         return c
     c = draw(model.queries(CFG))
